@@ -54,6 +54,18 @@ Theorem C15_defaults : forall s d dur mode,
 Proof. exact parse_stage_defaults. Qed.
 Print Assumptions C15_defaults.
 
+(* ... and a field the stage does give wins over the default, also when its value is the zero
+   value: the jitter in force for a rate stage is the stage's own whenever it has one (0 included),
+   otherwise the default section's, otherwise 0. *)
+Theorem C15_stage_jitter_wins : forall s d dur mode rs,
+  parse_stage s d dur mode = Ok rs -> rs_users rs = 0 ->
+  rs_jitter rs = match sc_jitter s with
+                 | Some j => j
+                 | None => match sc_jitter d with Some j => j | None => 0 end
+                 end.
+Proof. exact parse_stage_jitter. Qed.
+Print Assumptions C15_stage_jitter_wins.
+
 (* When durations are non-negative the kept stages are a suffix of the file's
    stages: once a stage is kept, all later ones are. *)
 Theorem C15_suffix : forall start now durs cum,
